@@ -526,7 +526,7 @@ def gen_overlap_block(rnd):
     nin = rnd.choice([1, 2, 2, 3])
     if rnd.random() < 0.8:
         x = rnd.choice([0, 0x20, 0x40, 0x60, 0x80])
-        d = rnd.choice([1, 31, 32, 33, 30, 63, 64, 0, -1, -31, -32, -33])
+        d = rnd.choice([1, 31, 31, 31, 32, 33, 30, 63, 64, 0, -1, -31, -31, -32, -33])
         y = max(0, x + d)
         extra = 0
         sym = rnd.random() < 0.25       # one of the accesses uses an address from the stack (may alias anything)
